@@ -58,9 +58,14 @@ def parse_list(s):
 
 
 class Op:
-    __slots__ = ('inst', 'name', 'args', 'events', 'ret', 'snap', 'asserts', 'line')
+    __slots__ = ('inst', 'name', 'args', 'events', 'ret', 'snap', 'asserts', 'line', 'activates')
 
     def __init__(self, inst, name, args, line):
+        # `replayenter` (RV_<Manual>::replayEnter on an instance that is not activated) is judged like `replay` —
+        # same history bookkeeping, no guards, report refreshed iff it answers true — and additionally activates
+        self.activates = name == 'replayenter'
+        if name == 'replayenter':
+            name = 'replay'
         self.inst, self.name, self.args, self.line = inst, name, args, line
         self.events, self.ret, self.snap, self.asserts = [], None, None, []
 
@@ -226,6 +231,8 @@ def judge_file(path, shape, config, rejections, stats, asserts):
                 active[op.inst] = not int(hdr['config'].get('manual', '0'))
             elif op.name == 'enter':
                 active[op.inst] = True
+            elif op.name == 'replay' and op.activates and op.ret == '1':
+                active[op.inst] = True
             elif op.name in ('exit', 'destroy'):
                 active[op.inst] = False
             elif op.name == 'load':
@@ -237,7 +244,8 @@ def judge_file(path, shape, config, rejections, stats, asserts):
                 expr = assertion_text(a)
                 asserts[expr] = asserts.get(expr, 0) + 1
                 rejections.setdefault('C11', []).append(dict(
-                    tag='assert', what='library assertion `%s` (%s) fired during `%s`' % (expr, a, op.name),
+                    tag='assert', what='library assertion `%s` (%s) fired during `%s`' % (
+                        expr, a, 'replayenter' if op.activates else op.name),
                     loc=a, replay=replay_text(hdr, ops, idx)))
             ncb = 0
             changed = False
@@ -256,7 +264,7 @@ def judge_file(path, shape, config, rejections, stats, asserts):
                     if obs is not None:
                         stats.inc('checks_C01')
                         # during the first activation and inside reset() nothing is active yet
-                        why = wf_active(tree, obs['a'], obs['s'], op.name not in ('new', 'enter', 'reset'))
+                        why = wf_active(tree, obs['a'], obs['s'], op.name not in ('new', 'enter', 'reset') and not op.activates)
                         if why:
                             rejections.setdefault('C01', []).append(dict(
                                 tag='wf-callback', what='inside %s of state %s: %s' % (e[2], e[1], why),
